@@ -248,6 +248,7 @@ func rulesC14b(p *Prog, r *Report) {
 		}
 	}
 
+	ruleC6(p, r, scc)
 	// ---- C5: cursor fields = int fields of the receiver struct of a function of a recursive cycle
 	recvStruct := map[*types.Struct]string{}
 	for _, f := range recs {
@@ -321,6 +322,157 @@ func rulesC14b(p *Prog, r *Report) {
 				}
 			}
 		}
+	}
+}
+
+// ruleC6: allocation sizes inside recursive computations grow additively. A make() whose length or
+// capacity is k·len(x) / k·cap(x) with k ≥ 2 (or x+x, or a shift) of a value the function received, in a
+// function that is part of — or called from — a recursive cycle, multiplies the allocation at every
+// level unless it is the guarded amortised-growth idiom (under a test that the slice is full).
+func ruleC6(p *Prog, r *Report, scc *cgSCC) {
+	r.Rule("C6", "necessary", 1, "no geometric growth of allocation sizes along a recursive chain: in functions of, or called from, a recursive cycle every make() length/capacity is free of terms k·len(x), k·cap(x) (k ≥ 2) over values the function was given")
+	// functions in or statically reachable from recursive members
+	reach := map[*ssa.Function]bool{}
+	var walk func(f *ssa.Function)
+	walk = func(f *ssa.Function) {
+		if f == nil || reach[f] || !p.inModuleLoose(f) {
+			return
+		}
+		reach[f] = true
+		for _, c := range scc.succs[f] {
+			walk(c)
+		}
+	}
+	for f := range scc.rec {
+		if p.R[f] {
+			walk(f)
+		}
+	}
+	var fns []*ssa.Function
+	for f := range reach {
+		if p.R[f] {
+			fns = append(fns, f)
+		}
+	}
+	sort.Slice(fns, func(i, j int) bool { return fns[i].String() < fns[j].String() })
+	sizeAtom := func(v ssa.Value) (ssa.Value, bool) {
+		c, ok := v.(*ssa.Call)
+		if !ok {
+			return nil, false
+		}
+		b, ok := c.Call.Value.(*ssa.Builtin)
+		if !ok || (b.Name() != "len" && b.Name() != "cap") {
+			return nil, false
+		}
+		return c.Call.Args[0], true
+	}
+	var hasAtom func(v ssa.Value, d int) bool
+	hasAtom = func(v ssa.Value, d int) bool {
+		if d > 6 {
+			return false
+		}
+		if _, ok := sizeAtom(v); ok {
+			return true
+		}
+		switch t := v.(type) {
+		case *ssa.BinOp:
+			return hasAtom(t.X, d+1) || hasAtom(t.Y, d+1)
+		case *ssa.Phi:
+			for _, e := range t.Edges {
+				if hasAtom(e, d+1) {
+					return true
+				}
+			}
+		case *ssa.Call:
+			if b, ok := t.Call.Value.(*ssa.Builtin); ok && (b.Name() == "max" || b.Name() == "min") {
+				for _, a := range t.Call.Args {
+					if hasAtom(a, d+1) {
+						return true
+					}
+				}
+			}
+		}
+		return false
+	}
+	var geometric func(v ssa.Value, d int) string
+	geometric = func(v ssa.Value, d int) string {
+		if d > 6 {
+			return ""
+		}
+		switch t := v.(type) {
+		case *ssa.BinOp:
+			switch t.Op {
+			case token.MUL:
+				for _, pr := range [][2]ssa.Value{{t.X, t.Y}, {t.Y, t.X}} {
+					if k, ok := pr[0].(*ssa.Const); ok && k.Value != nil && k.Int64() >= 2 && hasAtom(pr[1], 0) {
+						return fmt.Sprintf("%d × a size of the input", k.Int64())
+					}
+				}
+				if hasAtom(t.X, 0) && hasAtom(t.Y, 0) {
+					return "a product of two sizes of the input"
+				}
+			case token.SHL:
+				if k, ok := t.Y.(*ssa.Const); ok && k.Value != nil && k.Int64() >= 1 && hasAtom(t.X, 0) {
+					return "a size of the input shifted left"
+				}
+			case token.ADD:
+				ax, okx := sizeAtom(t.X)
+				ay, oky := sizeAtom(t.Y)
+				if okx && oky && ax == ay {
+					return "a size of the input added to itself"
+				}
+			}
+			if g := geometric(t.X, d+1); g != "" {
+				return g
+			}
+			return geometric(t.Y, d+1)
+		case *ssa.Call:
+			if b, ok := t.Call.Value.(*ssa.Builtin); ok && (b.Name() == "max" || b.Name() == "min") {
+				for _, a := range t.Call.Args {
+					if g := geometric(a, d+1); g != "" {
+						return g
+					}
+				}
+			}
+		}
+		return ""
+	}
+	n := 0
+	for _, f := range fns {
+		for _, b := range f.Blocks {
+			for _, in := range b.Instrs {
+				ms, ok := in.(*ssa.MakeSlice)
+				if !ok {
+					continue
+				}
+				n++
+				key := fmt.Sprintf("%s|%s", p.shortKey(f), instrDesc(in))
+				g := geometric(ms.Len, 0)
+				if g == "" {
+					g = geometric(ms.Cap, 0)
+				}
+				if g == "" {
+					r.OK("C6", key, p.pos(ms.Pos()), "size is additive in the sizes of the inputs", "", true)
+					continue
+				}
+				// the amortised-growth idiom: under a test comparing len and cap of a slice
+				guarded := false
+				for _, l := range pathLiterals(p, f, b) {
+					ls := l.String()
+					if strings.Contains(ls, "len(") && strings.Contains(ls, "cap(") {
+						guarded = true
+					}
+				}
+				if guarded {
+					r.OK("C6", key, p.pos(ms.Pos()), "geometric size only under a 'slice is full' test (amortised growth)", g, true)
+				} else {
+					r.Bad("C6", key, p.pos(ms.Pos()), fmt.Sprintf("the slice is made with %s, unconditionally, in a function of (or called from) a recursive cycle: fed back through the recursion the allocation multiplies at every level of nesting", g))
+				}
+			}
+		}
+	}
+	if n == 0 {
+		r.OK("C6", "no make in recursive computations", "-", "nothing allocated by size", "", false)
 	}
 }
 
